@@ -159,3 +159,7 @@ func init() {
 func init() {
 	claim("C07", "S1", "S2", "S3", "S4")
 }
+
+func init() {
+	claim("C05", "W1", "M1", "M2", "F1", "F2", "W5", "ZONCE", "W3", "TC", "S3")
+}
